@@ -110,17 +110,33 @@ func MkGraph[I, O any](opts ...compose.NewGraphOption) GraphH {
 	return gh[I, O]{compose.NewGraph[I, O](opts...)}
 }
 
+// Multi is what emit returns when a stream-producing lambda (kind 1 or 3) is to send several chunks
+// (of possibly different dynamic types) instead of one
+type Multi struct{ Vals []any }
+
 // MkLambda: a lambda of declared types I -> O that reports every value it receives to seen and
 // returns what emit says; kind selects the
 // paradigm it is written in: 0 Invoke | 1 Stream | 2 Collect | 3 Transform (the stream-reading
 // kinds read their input to its end first, so that a lazily converted chunk is checked)
 func MkLambda[I, O any](emit func() any, seen func(any), kind int) *compose.Lambda {
-	out := func() O {
+	conv := func(v any) O {
 		var o O
-		if v := emit(); v != nil {
+		if v != nil {
 			o = v.(O)
 		}
 		return o
+	}
+	out := func() O { return conv(emit()) }
+	outs := func() []O {
+		v := emit()
+		if m, ok := v.(Multi); ok {
+			var l []O
+			for _, x := range m.Vals {
+				l = append(l, conv(x))
+			}
+			return l
+		}
+		return []O{conv(v)}
 	}
 	drain := func(sr *schema.StreamReader[I]) error {
 		defer sr.Close()
@@ -139,7 +155,7 @@ func MkLambda[I, O any](emit func() any, seen func(any), kind int) *compose.Lamb
 	case 1:
 		return compose.StreamableLambda(func(ctx context.Context, in I) (*schema.StreamReader[O], error) {
 			seen(in)
-			return schema.StreamReaderFromArray([]O{out()}), nil
+			return schema.StreamReaderFromArray(outs()), nil
 		})
 	case 2:
 		return compose.CollectableLambda(func(ctx context.Context, in *schema.StreamReader[I]) (O, error) {
@@ -154,7 +170,7 @@ func MkLambda[I, O any](emit func() any, seen func(any), kind int) *compose.Lamb
 			if err := drain(in); err != nil {
 				return nil, err
 			}
-			return schema.StreamReaderFromArray([]O{out()}), nil
+			return schema.StreamReaderFromArray(outs()), nil
 		})
 	}
 	return compose.InvokableLambda(func(ctx context.Context, in I) (O, error) {
